@@ -55,7 +55,7 @@ def classes_for(sd, a):
 @st.composite
 def strat_gen(draw, tier):
     space = draw(gen.space_s())
-    sd = draw(gen.state_s(space, max_hw=6 if tier == 'quick' else 9, valid=draw(st.booleans())))
+    sd = draw(gen.state_s(space, max_hw=6 if tier == 'quick' else 9, valid=draw(st.booleans()), allow_grow=True))
     return {'state': sd, 'action': draw(gen.action_s), 'chain': draw(gen.chain_s()), 'seed': draw(gen.seed_s)}
 
 
@@ -102,8 +102,10 @@ def oracle_gen(case, ctx):
             if bool(real) != M.blocks_movement(o):
                 ctx.fail(f'blocks_movement({o}) = {real}, documented {M.blocks_movement(o)}', {'kind': 'flag'})
     cl = classes_for(sd, a)
+    if max(M.shape(sd)) >= 40:
+        cl = cl + ['long_world']
     ctx.ev.case(case, nt=('move_outside' in cl or 'move_blocked' in cl or nd['agent'][:3] != sd['agent'][:3]), classes=cl,
-                key=[sd, a, chain])
+                key=[sd, a, chain], sample=(dict(case, state={'shape': list(M.shape(sd)), 'agent': sd['agent'], 'top_rows': sd['grid'][:2]}) if max(M.shape(sd)) >= 40 else None))
 
 
 # ------------------------------------------------------------------ (b) exhaustive table
@@ -265,8 +267,8 @@ def _hist(case, ctx):
 
 CHECKS = [
     Check('pose_generated', oracle_gen, strategy=strat_gen, examples={'quick': 1200, 'thorough': 5000},
-          rule='generated state x action against move_agent, turn_agent, both chains and a random composition; turn laws (L then R, four equal turns)',
-          required=['move_outside', 'move_blocked', 'move_free', 'turn']),
+          rule='generated state (one in sixteen tiled to a long world with a dimension of 40..300) x action against move_agent, turn_agent, both chains and a random composition; turn laws (L then R, four equal turns)',
+          required=['move_outside', 'move_blocked', 'move_free', 'turn', 'long_world']),
     Check('target_table', oracle_table, enumerate=enum_table, shards={'quick': 4, 'thorough': 8}, exhaustive=True,
           rule='grids 1x1,1x3,3x1,2x2,3x3 x every agent cell x 4 headings x 8 actions x 13 target kinds (every type and door status), target outside the grid on every side'),
     Check('histories', oracle_hist, strategy=strat_hist, examples={'quick': 80, 'thorough': 300},
